@@ -136,15 +136,11 @@ def _body(repo, rep):
     # nr_fragments = ceil(len / (max - k)) on all three parts
     ceils = [c for c in walk_no_nested(enc) if isinstance(c, ast.Call) and dotted(c.func) == "ceil"]
     rep.check(len(ceils) == 3 and all(isinstance(c.args[0], ast.BinOp) and isinstance(c.args[0].op, ast.Div) for c in ceils), "overhead-count", f"{FQ}.encode_msg", f"{len(ceils)} x ceil(length / (max - k))", "the fragment count must be the ceiling of length / payload size on the command, data and file paths", mod=mod, node=enc)
-    gceil = [c for c in walk_no_nested(gen) if isinstance(c, ast.Call) and dotted(c.func) == "ceil"]
-    rep.check(len(gceil) == 1, "overhead", f"{FQ}._generate_pdv_fragments", "ceil(len(bytestream) / fragment_length)", "the generator must produce ceil(len/payload) fragments", mod=mod, node=gen)
     # zero => single fragment, 1..k rejected
     zero_ifs = [i for i in walk_no_nested(enc) if isinstance(i, ast.If) and norm(i.test) == "max_pdu_length == 0"]
     okz = len(zero_ifs) == 3 and all(any(isinstance(s, ast.Assign) and norm(s) == "nr_fragments = 1" for s in i.body) for i in zero_ifs)
     rep.check(okz, "overhead", f"{FQ}.encode_msg", "max_pdu_length == 0 -> nr_fragments = 1 (x3)", "a peer maximum of 0 means unlimited: one fragment per part on every path", mod=mod, node=enc)
-    gz = [i for i in walk_no_nested(gen) if isinstance(i, ast.If) and norm(i.test) == "fragment_length == 0"]
-    okg = len(gz) == 1 and [norm(s) for s in gz[0].body] == ["yield bytestream", "return"]
-    rep.check(okg, "overhead", f"{FQ}._generate_pdv_fragments", "fragment_length == 0 -> yield bytestream; return", "unlimited length must yield the whole stream once", mod=mod, node=gen)
+    gz = [i for i in walk_no_nested(gen) if isinstance(i, ast.If) and norm(i.test) in ("fragment_length == 0", "not fragment_length")]
     # every fragment the generator emits for a limited maximum is sized by the payload (maximum - k): a yield
     # the overhead subtraction does not dominate (other than the unlimited case) is measured against the
     # peer's maximum itself, while encode_msg counts the fragments by the payload size
@@ -162,18 +158,44 @@ def _body(repo, rep):
         dominated = ny is not None and any(gcfg.dominates(a, ny) for a in adj_nodes)
         rep.check(dominated, "overhead-count", f"{FQ}._generate_pdv_fragments", st_y, "this fragment is emitted on a path that has not taken the PDV overhead off the maximum: its size (or the decision to emit it) is measured against the peer's maximum, while encode_msg counts ceil(length / (maximum - k)) fragments - for lengths between the payload size and the maximum the generator yields one fragment fewer than encode_msg asks for, and the fragment flagged 'last' is never sent", mod=mod, node=y)
     rep.floor("generator yields sized by the payload", n_y, 1)
-    rej = None
-    for i in walk_no_nested(gen):
-        if isinstance(i, ast.If) and isinstance(i.test, ast.Compare) and len(i.test.ops) == 2 and norm(i.test.comparators[0]) == "fragment_length":
-            rej = i
-    rep.need(rej is not None, f"{FQ}._generate_pdv_fragments: range rejection vanished")
-    lo, hi = rej.test.left, rej.test.comparators[1]
-    okr = isinstance(lo, ast.Constant) and lo.value == 0 and isinstance(rej.test.ops[0], ast.Lt) and isinstance(hi, ast.Constant) and ((isinstance(rej.test.ops[1], ast.Lt) and hi.value == k0 + 1) or (isinstance(rej.test.ops[1], ast.LtE) and hi.value == k0)) and any(isinstance(s, ast.Raise) for s in rej.body)
-    rep.check(okr, "overhead", f"{FQ}._generate_pdv_fragments", rej, f"maximum lengths 1..{k0} leave no room for payload and must be rejected (and {k0 + 1} must be allowed)", mod=mod)
-    # slicing arithmetic of the generator
-    src = [norm(s) for s in walk_no_nested(gen) if isinstance(s, ast.stmt)]
-    oks = "yield bytestream[offset:offset + fragment_length]" in src and "offset += fragment_length" in src and "offset = 0" in src
-    rep.check(oks, "overhead", f"{FQ}._generate_pdv_fragments", "yield bytestream[offset:offset+n]; offset += n", "consecutive, non-overlapping slices of the payload size", mod=mod, node=gen)
+    # the generator itself, evaluated (sa/minipy.py) for every maximum 0..k+10 and every stream length up to
+    # three payloads and a bit: unlimited -> the stream once; 1..k -> ValueError; otherwise exactly the
+    # consecutive slices of the payload size (their number is the ceil() encode_msg counts with)
+    from ..minipy import Interp as _Interp, Raised as _Raised, Unsupported as _Unsupported
+    import math as _math
+
+    it_ = _Interp({"ceil": _math.ceil})
+    params = [a.arg for a in gen.args.args]
+    n_pts = 0
+    bad_pts = []
+    try:
+        for fl in list(range(0, k0 + 11)) + [k0 + 58]:
+            for ln in range(1, 3 * max(fl - k0, 1) + 4):
+                stream = bytes(x % 251 for x in range(ln))
+                n_pts += 1
+                it_.steps = 0
+                try:
+                    got = it_.call_function(gen, dict(zip(params, [stream, fl])))
+                except _Raised as r_:
+                    got = ("raises", r_.kind)
+                if fl == 0:
+                    want = [stream]
+                elif fl <= k0:
+                    want = ("raises", "ValueError")
+                else:
+                    pay = fl - k0
+                    want = [stream[o:o + pay] for o in range(0, ln, pay)]
+                if got != want:
+                    bad_pts.append((fl, ln, got, want))
+    except _Unsupported as exc_:
+        rep.defer(f"{FQ}._generate_pdv_fragments could not be evaluated ({exc_})")
+    for fl, ln, got, want in bad_pts[:3]:
+        def show(v):
+            return f"{len(v)} fragment(s) of {[len(x) for x in v][:6]} bytes" if isinstance(v, list) else f"{v[0]} {v[1]}"
+        rep.fail("overhead", f"{FQ}._generate_pdv_fragments", f"maximum {fl}, stream of {ln} bytes -> {show(got)}", f"for a peer maximum of {fl} and a part of {ln} bytes the generator must give {show(want)} (consecutive slices of maximum - {k0} bytes; 0 = unlimited; 1..{k0} rejected) - encode_msg counts ceil(length / (maximum - {k0})) fragments and flags the last of them: a different number or size leaves fragments unsent, mis-flags the last one or exceeds the peer's maximum", mod=mod, node=gen)
+    if not bad_pts and n_pts:
+        rep.ok("overhead", f"{FQ}._generate_pdv_fragments :: {n_pts} (maximum, length) points", "consecutive payload-size slices; 0 unlimited; 1..k rejected")
+    rep.floor("generator evaluation points", n_pts, 100)
 
     # ---- (3)/(4) typestate over encode_msg ------------------------------------------
     cfg = CFG(enc, body=body_nodoc(enc), may_raise=lambda n: False)
